@@ -462,6 +462,12 @@ pub fn case_seqop(sink: &mut Sink, st: &mut Streams, q: &[Sg], op: &SeqOp, pre: 
     match (op, &r) {
         (SeqOp::Info, Ok(Ok(SeqRes::Info(l, it)))) => {
             if *l == n && *it == ids { sink.oracle_ok() } else { fail(sink, "len/iter of a sequence disagree with its segments' ids") }
+            // serde round trip: write_row_ids / read_row_ids preserve every segment (variant, encoding, bits)
+            let bytes = lance_table::rowids::write_row_ids(&real);
+            match lance_table::rowids::read_row_ids(&bytes) {
+                Ok(back) if back == real && seq_of_real(&back).as_deref() == Ok(q) => sink.oracle_ok(),
+                _ => fail(sink, "write_row_ids / read_row_ids do not round trip the sequence"),
+            }
         }
         (SeqOp::Extend(o), Ok(Ok(SeqRes::Seq(s)))) => {
             let mut e = ids.clone();
